@@ -75,9 +75,13 @@ func VerifC12MerklePaths() {
 	var ws []want
 	ep := &ics23.ExistenceProof{Key: []byte{0xff, 1}, Value: []byte{7}}
 	for i := 0; i < steps; i++ {
+		ml := maxLen
+		if i > 0 {
+			ml = vs.Param("later_max_varint_len") // every length is covered on the first step
+		}
 		h, hb := c12Varint("subtree_height", 1+vs.Pick("height_len", 2), true)
-		s, sb := c12Varint("subtree_size", 1+vs.Pick("size_len", maxLen), false)
-		v, vb := c12Varint("subtree_version", 1+vs.Pick("version_len", maxLen), false)
+		s, sb := c12Varint("subtree_size", 1+vs.Pick("size_len", ml), false)
+		v, vb := c12Varint("subtree_version", 1+vs.Pick("version_len", ml), false)
 		sib := vs.Bytes("sibling_hash", 32)
 		right := vs.Bool("data_on_right")
 		ws = append(ws, want{h, s, v, sib, right})
